@@ -390,7 +390,7 @@ def run(ck):
     triples = list(itertools.product(range(1, top + 1), repeat=3))
     cases = []  # (spec, mno, stratum)
     # every multiplier triple on fresh random structures
-    reps = 2 if quick else 4
+    reps = 2 if quick else 8
     for t in triples:
         for _ in range(reps):
             cases.append((gen_structure(rng), list(t), "valid"))
@@ -487,6 +487,15 @@ def run(ck):
         except Exception as e:  # noqa: BLE001
             notes.append("%r -> %s" % (mm, type(e).__name__))
     ck.notes.append("non-integer multipliers (outside the model; the code truncates with int() after the >=1 test): " + "; ".join(notes))
+    # measured: which objects a result does share with its input by reference (never written in place by the library)
+    S = build(spec)
+    S[0].mutable_extra = [1, 2]
+    r2 = supercell(S, (2, 1, 1))
+    r1 = supercell(S, (1, 1, 1))
+    ck.notes.append("reference sharing (recorded, see assumptions): result.lattice.baserot is input.lattice.baserot: %s (2,1,1) / %s (1,1,1); "
+                    "result.lattice.base is input.lattice.base: %s (2,1,1) / %s (1,1,1); a list-valued extra attribute is the same object in parent "
+                    "and image: %s" % (r2.lattice.baserot is S.lattice.baserot, r1.lattice.baserot is S.lattice.baserot,
+                                       r2.lattice.base is S.lattice.base, r1.lattice.base is S.lattice.base, r2[0].mutable_extra is S[0].mutable_extra))
     ck.notes.append("two-step vs one-step: %d factorisations evaluated, atom order differs in %d of them (multiset equal in all)" % (n2, n_order_differs))
     ck.coverage["distinct_nontrivial"] += nontrivial
     ck.coverage["samples"] = samples
@@ -510,6 +519,17 @@ def run(ck):
     if not ok and not ck.violations:
         ck.fail("lean-build", "Lean obligations of C15 no longer check: %r" % (info["failed_modules"],),
                 {"kind": "proof-obligation", "theorem": info["failed_modules"], "errors": info["errors"]}, no_failing_input=True)
+    if ck.tier == "thorough" and ok:
+        thorough(ck)
+
+
+def thorough(ck):
+    """leanchecker re-check of the compiled obligations (thorough tier)."""
+    with common.LeanLock():
+        rc, out, err = common.run(["lake", "env", "leanchecker", "DS.Props.C15", "DS.Lemmas.Expand"], cwd=common.LEAN, timeout=7200)
+    ck.notes.append("leanchecker DS.Props.C15 DS.Lemmas.Expand: rc=%d %s" % (rc, (out + err)[-300:]))
+    if rc != 0:
+        raise common.Broken("leanchecker rejected DS.Props.C15: " + (out + err)[-1000:])
 
 
 def replay(path):
